@@ -235,6 +235,42 @@ def pair_identity(job):
              "completed": completed, "nplan": -1, "stderr": (repr(n1) + " vs " + repr(n2) + " banner=" + str(b"SAFE no-base" in p2.stderr))}]
 
 
+PAIR_SEPS = [":", "", " ", "\n", "|", ",", "\t", ";", "::", "\\", "=", "->", "\x01", "\x1f"]
+
+
+def pair_concat(job):
+    """C07 'archive of another pair', two pairs whose root strings CONCATENATE to the same text under some separator:
+    (d/x, d/y<sep>d/z) and (d/x<sep>d/y, d/z) - directories whose names contain the separator and that continue with a
+    copy of d's own path.  Whatever identifies a pair must tell these two apart: the second run has no base."""
+    k, _ = job
+    sep = PAIR_SEPS[k]
+    d = os.path.realpath(os.path.join(CFG["dir"], f"cat{k}"))
+    shutil.rmtree(d, ignore_errors=True)
+    A1, B1 = d + "/x", d + "/y" + sep + d + "/z"
+    A2, B2 = d + "/x" + sep + d + "/y", d + "/z"
+    home = os.path.join(d, "home")
+    for x in (A1, B1, A2, B2, home):
+        os.makedirs(x, exist_ok=True)
+    for side in (A1, B1, B2):
+        open(os.path.join(side, "f"), "wb").write(CONTENT[1])
+        open(os.path.join(side, "g"), "wb").write(CONTENT[2])
+    open(os.path.join(A2, "f"), "wb").write(CONTENT[1])          # A2 has f but not g: with pair 1's archive as base, g would be deleted from B2
+
+    def tr(root):           # the roots are nested in one another's ancestors: only the two files at the top of each count
+        return {n: v for n, v in tree(root).items() if "/" not in n}
+    subprocess.run([CFG["copia"], "bisync", A1, B1], env=_env(home), stdout=subprocess.PIPE, stderr=subprocess.PIPE, timeout=60)
+    a0, b0 = tr(A2), tr(B2)
+    p2 = subprocess.run([CFG["copia"], "bisync", A2, B2], env=_env(home), stdout=subprocess.PIPE, stderr=subprocess.PIPE, timeout=60)
+    a1, b1 = tr(A2), tr(B2)
+    names = sorted(set(a0) | set(b0) | set(a1) | set(b1))
+    fam = [[j + 1 for j, m2 in enumerate(names) if m2 == n or m2.startswith(n + ".conflict-")] for n in names]
+    arr = lambda t: [t.get(n, 0) for n in names]
+    completed = p2.returncode == 0 or (p2.returncode == 1 and b"had conflicts" in p2.stderr)
+    return [{"seed": f"pair-concat-{k}", "step": 0, "names": names, "fam": fam, "A": arr(a0), "B": arr(b0), "E": [0] * len(names), "tr": False, "stg": False,
+             "last": [0] * len(names), "A2": arr(a1), "B2": arr(b1), "altA2": arr(a1), "altB2": arr(b1), "E2": arr(a1) if completed else [0] * len(names), "tr2": completed, "exit": p2.returncode,
+             "completed": completed, "nplan": -1, "stderr": f"separator {sep!r} exit={p2.returncode} banner=" + str(b"SAFE no-base" in p2.stderr)}]
+
+
 def pair_relative(job):
     """C07 'archive of another pair', spelled relatively: `bisync <abs docs> backup` is run from inside two different
     directories (a root that does not exist yet is created and the command repeated, as a user would).  The second
@@ -424,6 +460,8 @@ def run_all(copia, root, jobs, nproc=12, pairs=False, link_target=None):
             out.extend(r)
         if pairs:
             for r in pool.imap_unordered(pair_identity, [(k, None) for k in range(len(PAIR_NAMES))]):
+                out.extend(r)
+            for r in pool.imap_unordered(pair_concat, [(k, None) for k in range(len(PAIR_SEPS))]):
                 out.extend(r)
             for r in pool.imap_unordered(pair_relative, [(k, None) for k in range(4)]):
                 out.extend(r)
